@@ -204,45 +204,165 @@ def facts_stream():
     return out
 
 
-SECTIONS = [("stream", facts_stream)]
+
+# ----------------------------------------------------------------------------- control.py / utils.seq / server.py
+def class_consts(cls):
+    env = {}
+    for n in cls.body:
+        if isinstance(n, ast.Assign) and len(n.targets) == 1 and isinstance(n.targets[0], ast.Name):
+            try:
+                env[n.targets[0].id] = const_int_env(n.value, env)
+            except Shape:
+                pass
+    return env
 
 
-def generate() -> str:
+def const_int_env(node, env):
+    if isinstance(node, ast.Name) and node.id in env:
+        return env[node.id]
+    if isinstance(node, ast.BinOp):
+        l, r = const_int_env(node.left, env), const_int_env(node.right, env)
+        return const_int(ast.BinOp(left=ast.Constant(l), op=node.op, right=ast.Constant(r)))
+    return const_int(node)
+
+
+def body_text(fn):
+    """Normalised text of a function body: docstrings, comments and logging calls dropped."""
+    out = []
+    for st in fn.body:
+        if isinstance(st, ast.Expr) and isinstance(st.value, ast.Constant):
+            continue
+        if isinstance(st, ast.Expr) and isinstance(st.value, ast.Call) and call_name(st.value).startswith("logger."):
+            continue
+        out.append(ast.unparse(st))
+    return "\n".join(out)
+
+
+def facts_control():
+    out = []
+    tree = parse("control.py")
+    cls = find_class(tree, "LocalControl")
+    env = class_consts(cls)
+    for k in ("_CONNECTION_ID_BITS", "_MAX_CONNECTION_SEQ", "_MAX_SERVER_ID"):
+        if k not in env:
+            raise Shape(f"LocalControl.{k} not found")
+    out.append(f"Definition control_id_bits : N := {env['_CONNECTION_ID_BITS']}.")
+    out.append(f"Definition control_max_seq : N := {env['_MAX_CONNECTION_SEQ']}.")
+    out.append(f"Definition control_max_server_id : N := {env['_MAX_SERVER_ID']}.")
+    init = find_func(cls, "__init__")
+    sid = [st for st in init.body if isinstance(st, ast.Assign) and ast.unparse(st.targets[0]) == "self.server_id"]
+    if len(sid) != 1:
+        raise Shape("self.server_id assignment not found")
+    v = sid[0].value
+    rnd = "random.randint(0, self._MAX_SERVER_ID - 1)"
+    if isinstance(v, ast.BoolOp) and isinstance(v.op, ast.Or) and [ast.unparse(x) for x in v.values] == ["server_id", rnd]:
+        mode = "SidFalsy"
+    elif isinstance(v, ast.IfExp) and ast.unparse(v.test) == "server_id is not None" and ast.unparse(v.body) == "server_id" and ast.unparse(v.orelse) == rnd:
+        mode = "SidNoneOnly"
+    else:
+        raise Shape("server_id default not recognised: " + ast.unparse(v))
+    out.append(f"Definition control_sid_mode : sid_mode := {mode}.")
+    seqs = [const_int_env(n.args[0], {"self._MAX_CONNECTION_SEQ": 0}) if False else ast.unparse(n.args[0])
+            for n in ast.walk(init) if isinstance(n, ast.Call) and call_name(n) == "seq"]
+    if seqs != ["self._MAX_CONNECTION_SEQ"]:
+        raise Shape(f"connection sequence size: {seqs}")
+    expected_new = "\n".join([
+        "if len(self._connections) >= self._MAX_CONNECTION_SEQ:\n    raise TooManyConnections()",
+        "server_id_prefix = self.server_id % self._MAX_SERVER_ID << self._CONNECTION_ID_BITS",
+        "connection_id = server_id_prefix + next(self._connection_seq)",
+        "while connection_id in self._connections:\n    connection_id = server_id_prefix + next(self._connection_seq)",
+        "return connection_id",
+    ])
+    got = body_text(find_func(cls, "_new_connection_id"))
+    if got != expected_new:
+        raise Shape("_new_connection_id changed:\n" + got)
+    out.append("Definition control_new_id_skeleton_ok : bool := true.")
+    exp = {
+        "add": "connection_id = self._new_connection_id()\nself._connections[connection_id] = connection\nreturn connection_id",
+        "remove": "self._connections.pop(connection_id, None)",
+        "kill": "conn = self._connections.get(connection_id)\nif conn:\n    conn.kill(kind)",
+    }
+    for k, e in exp.items():
+        got = body_text(find_func(cls, k))
+        if got != e:
+            raise Shape(f"LocalControl.{k} changed:\n{got}")
+    out.append("Definition control_add_remove_kill_ok : bool := true.")
+    ut = parse("utils.py")
+    sq = find_class(ut, "seq")
+    nx = body_text(find_func(sq, "__next__"))
+    if nx != "value = self.value\nself.value = self.value + 1\nif self.size:\n    self.value = self.value % self.size\nreturn value":
+        raise Shape("seq.__next__ changed:\n" + nx)
+    if body_text(find_func(sq, "reset")) != "self.value = 0":
+        raise Shape("seq.reset changed")
+    out.append("Definition utils_seq_ok : bool := true.")
+    # server.py: TooManyConnections -> ERR CON_COUNT_ERROR, and the finally of the callback
+    sv = parse("server.py")
+    cb = find_func(find_class(sv, "MysqlServer"), "_client_connected_cb")
+    codes = []
+    for n in ast.walk(cb):
+        if isinstance(n, ast.ExceptHandler) and n.type is not None and ast.unparse(n.type) == "TooManyConnections":
+            txt = "\n".join(ast.unparse(x) for x in n.body)
+            for kw in [k for c in ast.walk(n) if isinstance(c, ast.Call) for k in c.keywords if k.arg == "code"]:
+                codes.append(ast.unparse(kw.value))
+            if not isinstance(n.body[-1], ast.Return):
+                raise Shape("TooManyConnections handler does not return")
+    if codes != ["ErrorCode.CON_COUNT_ERROR"]:
+        raise Shape(f"TooManyConnections handler codes: {codes}")
+    er = parse("errors.py")
+    ec = class_consts(find_class(er, "ErrorCode"))
+    out.append(f"Definition server_too_many_code : N := {ec['CON_COUNT_ERROR']}.")
+    fin = [n for n in ast.walk(cb) if isinstance(n, ast.Try) and n.finalbody]
+    if len(fin) != 1 or [ast.unparse(x) for x in fin[0].finalbody] != ["writer.close()", "await self.control.remove(connection_id)"]:
+        raise Shape("callback finally changed")
+    if [ast.unparse(x) for x in fin[0].body] != ["return await connection.start()"]:
+        raise Shape("callback try body changed")
+    out.append("Definition server_cb_finally_ok : bool := true.")
+    return out
+
+
+SECTIONS = [("stream", facts_stream), ("control", facts_control)]
+
+
+IMPORTS = {
+    "stream": "From MM Require Import Lib.Bytes Model.Wire.",
+    "control": "From MM Require Import Lib.Bytes Model.ConnId.",
+}
+
+
+def generate_one(name, fn) -> str:
     lines = [
         "(* GENERATED by harness/translate.py from %s - do not edit *)" % SRC,
         "From Coq Require Import List NArith ZArith String.",
-        "From MM Require Import Lib.Bytes Model.Wire.",
+        IMPORTS.get(name, "From MM Require Import Lib.Bytes."),
         "Import ListNotations.",
         "Open Scope N_scope.",
         "",
     ]
-    for name, fn in SECTIONS:
-        lines.append(f"(* ---- {name} ---- *)")
-        try:
-            lines.extend(fn())
-            lines.append(f"Definition translated_{name} : bool := true.")
-        except Exception as e:  # fail closed
-            reason = f"{type(e).__name__}: {e}".replace("*)", "* )")
-            lines.append(f"(* TRANSLATOR FAILED for {name}: {reason} *)")
-            lines.append(f"Definition translated_{name} : bool := translator_failed_for_{name}.")
-        lines.append("")
+    try:
+        lines.extend(fn())
+        lines.append(f"Definition translated_{name} : bool := true.")
+    except Exception as e:  # fail closed
+        reason = f"{type(e).__name__}: {e}".replace("*)", "* )")
+        lines.append(f"(* TRANSLATOR FAILED for {name}: {reason} *)")
+        lines.append(f"Definition translated_{name} : bool := translator_failed_for_{name}.")
+    lines.append("")
     return "\n".join(lines)
 
 
 def main():
-    out = sys.argv[1]
-    text = generate()
-    old = None
-    if os.path.exists(out):
-        with open(out) as f:
-            old = f.read()
-    if old != text:
-        os.makedirs(os.path.dirname(out), exist_ok=True)
-        with open(out, "w") as f:
-            f.write(text)
-        print("Facts.v rewritten")
-    else:
-        print("Facts.v unchanged")
+    outdir = sys.argv[1]
+    os.makedirs(outdir, exist_ok=True)
+    for name, fn in SECTIONS:
+        out = os.path.join(outdir, "Facts" + name.capitalize() + ".v")
+        text = generate_one(name, fn)
+        old = None
+        if os.path.exists(out):
+            with open(out) as f:
+                old = f.read()
+        if old != text:
+            with open(out, "w") as f:
+                f.write(text)
+            print(os.path.basename(out), "rewritten")
 
 
 if __name__ == "__main__":
